@@ -10,7 +10,8 @@ def _mc(flavour, regime="S", bug="", depth=3, tdepth=3, every=40, tevery=8, thin
              DUs={0, 2, 19, 20}, WithNeg=True, MinTempTtl=1, MaxTtl=20, Now0=10, Depth=depth,
              EmitEvery=every, BUG=bug)
     if regime == "O":
-        c.update(MAXI=7, Cap=6, Amts={1, 6, 7}, MintAmts={1, 6, 7}, ApprAmts={7}, DUs={2}, WithNeg=False)
+        # 8 units = i128::MAX itself (the harness maps 8 * 2^124, which does not exist, to i128::MAX)
+        c.update(MAXI=7, Cap=6, Amts={1, 6, 7}, MintAmts={1, 6, 7}, ApprAmts={7, 8}, DUs={2}, WithNeg=False)
     c.update(over)
     name = flavour + ("_thin" if thin else "") + ("_O" if regime == "O" else "") + ("_" + bug if bug else "")
     d = dict(name=name, module="MC_Fungible", constants=c, invariants=["NoViolation", "Refines"],
